@@ -97,6 +97,9 @@ impl InstructionGenerator {
         statements: Statements,
         pos: Position,
     ) {
+        // to be able to resume after an error in the bounds or in the step:
+        // the loop is then entered through its test, with its register frame
+        self.mark_statement_address();
         // loop point
         self.label("step-loop", pos);
         // is step < 0 ?
@@ -153,6 +156,9 @@ impl InstructionGenerator {
         } else {
             "negative-loop"
         };
+        // to be able to resume after an error in the bounds:
+        // the loop is then entered through its test, with its register frame
+        self.mark_statement_address();
         // loop point
         self.label(loop_label, pos);
         // upper bound from C to B
